@@ -104,6 +104,27 @@ func (b *builder) batch(kind string, foreign []string) {
 			b.emit(b.bind("", s))
 			b.emit(script.CMsg{K: "E", Portal: ""})
 		}
+	case "simple-query-between":
+		// the two protocols share the connection, not the namespace: a simple Query between a Bind and
+		// its Execute leaves statements and portals - the unnamed ones included - as they were
+		s, p := b.sname(), b.pname()
+		if rapid.Bool().Draw(t, "unnamed") {
+			s, p = "", ""
+		}
+		b.emit(script.CMsg{K: "P", Name: s, Query: b.q()})
+		b.emit(b.bind(p, s))
+		if rapid.Bool().Draw(t, "sync-first") {
+			b.emit(script.CMsg{K: "S"})
+		}
+		for i, n := 0, rapid.IntRange(1, 3).Draw(t, "simple-queries"); i < n; i++ {
+			b.emit(script.CMsg{K: "Q", Query: b.q()})
+		}
+		if rapid.Bool().Draw(t, "describe") {
+			b.emit(script.CMsg{K: "D", Kind: 'P', Portal: p})
+		}
+		b.emit(script.CMsg{K: "E", Portal: p})
+		b.emit(b.bind("", s))
+		b.emit(script.CMsg{K: "E", Portal: ""})
 	case "reparse-before-execute":
 		s, p := b.sname(), b.pname()
 		qa := b.q()
@@ -202,7 +223,7 @@ func (b *builder) batch(kind string, foreign []string) {
 	b.emit(script.CMsg{K: "S"})
 }
 
-var kinds = []string{"large-message-between", "plain", "reparse-before-execute", "rebind-portal", "describe-after-reparse", "params-per-portal", "close-then-use", "same-name-on-two-connections"}
+var kinds = []string{"simple-query-between", "large-message-between", "plain", "reparse-before-execute", "rebind-portal", "describe-after-reparse", "params-per-portal", "close-then-use", "same-name-on-two-connections"}
 
 func genCase(t *rapid.T) Case {
 	c := Case{NConn: rapid.SampledFrom([]int{1, 1, 2, 2, 3}).Draw(t, "nconn")}
